@@ -39,7 +39,7 @@ TABLE = {
 
 
 def run(ctx):
-    for fn in (r1_preprocessing, r2_consume_emit, r3_transitions, r4_grouping, r5_group_buffers, r6_line_counter):
+    for fn in (r1_preprocessing, r2_consume_emit, r3_transitions, r3b_prompt_is_source, r4_grouping, r5_group_buffers, r6_line_counter):
         ctx.rep.rule(fn, ctx)
 
 
@@ -318,6 +318,53 @@ def r3_transitions(ctx):
                'undocumented transition(s) %s -> %s: %s' % (prev, sorted(labels - TABLE[prev]) or labels, 'prose can become a want without source' if prev == 'text' and 'want' in labels else
                                                            ('a want can continue as a continuation line' if prev == 'want' and 'dcnt' in labels else 'outside the documented table')), anchor=LABEL)
     rep.note('label_transition_table', table)
+    # prev_state is advanced from curr_state once per iteration
+    adv = [n for n in g.nodes if n.kind == 'stmt' and not n.dup and isinstance(n.ast, ast.Assign) and is_name(n.ast.targets[0], 'prev_state') and is_name(n.ast.value, 'curr_state') and graph.in_loop_body(n, head.ast)]
+    res = graph.count_events(entry, lambda x: any(x is a for a in adv), lambda x: x is head, efilter=graph.normal_only)
+    (_, lo, hi, _, _) = next(iter(res.values())) if res else (None, 0, 0, None, None)
+    rep.ob('C13.R3', ctx.loc(f, adv[0].ast if adv else head.ast), 'prev_state = curr_state once per iteration', (lo, hi) == (1, 1),
+           'the state machine advances exactly once per consumed line' if (lo, hi) == (1, 1) else 'the state is advanced %d..%d times per line' % (lo, hi), anchor=LABEL)
+
+
+def _label_machine(ctx):
+    f = ctx.func(LABEL)
+    g = ctx.cfg(f)
+    rd = ctx.rd(f)
+    consts_ = {}
+    for d in rd.defs:
+        if d.kind == 'assign' and isinstance(d.value, ast.Constant) and isinstance(d.value.value, str) and d.name.isupper() and len(rd.defs_of(d.name)) == 1:
+            consts_[d.name] = d.value.value
+    need(set(consts_.values()) >= {'text', 'dsrc', 'dcnt', 'want'}, 'C13.R3: state constants not recognised: %s' % consts_)
+    heads = [n for n in g.nodes if n.kind == 'for' and not n.dup and not any(fr.kind == 'loop' for fr in n.frames)]
+    head = heads[0]
+    entry, cut = graph.region_of_loop(g, head)
+    inner = [n for n in g.nodes if n.kind == 'for' and not n.dup and graph.in_loop_body(n, head.ast)]
+
+    def val_of(e):
+        if isinstance(e, ast.Name) and e.id in consts_:
+            return consts_[e.id]
+        if isinstance(e, ast.Constant) and isinstance(e.value, str):
+            return e.value
+        return None
+
+    def truth(e, prev):
+        if isinstance(e, ast.Compare) and len(e.ops) == 1 and is_name(e.left, 'prev_state'):
+            c = e.comparators[0]
+            if isinstance(e.ops[0], (ast.Eq, ast.NotEq)) and val_of(c) is not None:
+                return (prev == val_of(c)) == isinstance(e.ops[0], ast.Eq)
+            if isinstance(e.ops[0], (ast.In, ast.NotIn)) and isinstance(c, (ast.Set, ast.Tuple, ast.List)):
+                vals = [val_of(x) for x in c.elts]
+                if None not in vals:
+                    return (prev in vals) == isinstance(e.ops[0], ast.In)
+        return None
+    cur_defs = [d for d in rd.defs_of('curr_state')]
+    return f, g, rd, head, entry, cut, inner, val_of, truth, cur_defs
+
+
+def r3b_prompt_is_source(ctx, rule='C13.R3b'):
+    """a prompt-prefixed line is source whatever its indentation"""
+    rep = ctx.rep
+    f, g, rd, head, entry, cut, inner, val_of, truth, cur_defs = _label_machine(ctx)
     # R3b: a prompt-prefixed line is source whatever its indentation.  For each previous state, the assignment
     # of the source label reached by a prompt line must not be edge-dominated by an indentation comparison.
     dom = ctx.dom(g, entry, cut)
@@ -342,21 +389,24 @@ def r3_transitions(ctx):
             if not any(isinstance(fa.expr, ast.Call) and '>>>' in fa.text and fa.polarity is True for fa in facts):
                 continue
             indent = [fa for fa in facts if isinstance(fa.expr, ast.AST) and any(isinstance(x, ast.Name) and x.id in ('line_indent', 'state_indent') for x in ast.walk(fa.expr))]
+            # the recognition itself must look at the line without its indentation: a subject cut at the remembered
+            # indentation (`line[state_indent:]`) starts with the prompt only at exactly that column
+            for fa in facts:
+                if isinstance(fa.expr, ast.Call) and '>>>' in fa.text and fa.polarity is True and fa.expr.args and isinstance(fa.expr.args[0], ast.Name) and fa.origin is not None:
+                    tn = fa.origin.attrs['test']
+                    for dd in rd.at(tn, fa.expr.args[0].id):
+                        if isinstance(dd.value, ast.AST) and any(isinstance(x, ast.Name) and x.id in ('line_indent', 'state_indent') for x in ast.walk(dd.value)):
+                            if fa not in indent:
+                                indent.append(fa)
             key = id(d.node)
             seen_sites.setdefault(key, (d, [], indent))[1].append(prev)
     for key, (d, prevs, indent) in seen_sites.items():
         ok = not indent
-        rep.ob('C13.R3b', ctx.loc(f, d.node.ast), 'prompt line after %s -> source' % '|'.join(sorted(prevs)), ok,
+        rep.ob(rule, ctx.loc(f, d.node.ast), 'prompt line after %s -> source' % '|'.join(sorted(prevs)), ok,
                'a prompt-prefixed line becomes source irrespective of its indentation' if ok else
                'after %s a prompt-prefixed line is only recognised as source when %s: a `>>>` line that is indented less than the preceding block is labelled prose and its '
                'statement is silently dropped' % ('|'.join(sorted(prevs)), fmt_facts(indent)), anchor=LABEL)
-    rep.floor('C13.R3', 'prompt recognition sites', len(seen_sites), 2)
-    # prev_state is advanced from curr_state once per iteration
-    adv = [n for n in g.nodes if n.kind == 'stmt' and not n.dup and isinstance(n.ast, ast.Assign) and is_name(n.ast.targets[0], 'prev_state') and is_name(n.ast.value, 'curr_state') and graph.in_loop_body(n, head.ast)]
-    res = graph.count_events(entry, lambda x: any(x is a for a in adv), lambda x: x is head, efilter=graph.normal_only)
-    (_, lo, hi, _, _) = next(iter(res.values())) if res else (None, 0, 0, None, None)
-    rep.ob('C13.R3', ctx.loc(f, adv[0].ast if adv else head.ast), 'prev_state = curr_state once per iteration', (lo, hi) == (1, 1),
-           'the state machine advances exactly once per consumed line' if (lo, hi) == (1, 1) else 'the state is advanced %d..%d times per line' % (lo, hi), anchor=LABEL)
+    rep.floor(rule, 'prompt recognition sites', len(seen_sites), 2)
 
 
 def r4_grouping(ctx):
@@ -569,6 +619,7 @@ from ..selftest import fire, silent      # noqa: E402
 
 PA = 'xdoctest/parser.py'
 VARIANTS = [
+    fire('prompt-after-want-tested-at-old-column', 'C13.R3b', (PA, "                elif _hasprefix(line.strip(), ('>>>',)):\n", "                elif _hasprefix(norm_line, ('>>>',)):\n")),
     fire('P4-drop-expandtabs', 'C13.R1', (PA, "        string = string.expandtabs()\n", "")),
     fire('deindent-wrong-bound', 'C13.R1', (PA, "            string = '\\n'.join([ln[min_indent:] for ln in string.splitlines()])\n", "            string = '\\n'.join([ln[min_indent + 1:] for ln in string.splitlines()])\n")),
     fire('deindent-dropped', 'C13.R1', (PA, "        if min_indent > 0:\n            string = '\\n'.join([ln[min_indent:] for ln in string.splitlines()])\n", "")),
